@@ -112,21 +112,45 @@ theorem PollHyp.zero {t : Int} {s s' : State} {c c1 : PollCtl} {r : PollRes} {re
   rw [ho'] at hx
   simpa [hb] using h1 x (by rw [ho]; exact List.mem_cons_of_mem _ hx)
 
-/-- the dispatch count only grows; if it did not grow no callback ran: `loop->time` is untouched -/
-theorem dispatchLoop_count (sc : Script) (fuel : Nat) (s : State) (n : Nat) (sg : Bool) :
-    n ≤ (dispatchLoop sc fuel s n sg).2.1 ∧
-    ((dispatchLoop sc fuel s n sg).2.1 = n → (dispatchLoop sc fuel s n sg).1.tm = s.tm) := by
-  induction fuel generalizing s n sg with
-  | zero => exact ⟨Nat.le_refl _, fun _ => rfl⟩
+/-- once the "leave uv__io_poll after this batch" flag (have_signals / have_iou_events) is set it stays set -/
+theorem dispatchLoop_sg_true (sc : Script) (fuel : Nat) (s : State) (n : Nat) :
+    (dispatchLoop sc fuel s n true).2.2 = true := by
+  induction fuel generalizing s n with
+  | zero => rfl
   | succ m ih =>
     unfold dispatchLoop
     split
-    · exact ⟨Nat.le_refl _, fun _ => rfl⟩
+    · rfl
+    · simp only
+      split
+      · exact ih _ _
+      · split <;> exact ih _ _
+      · split <;> exact ih _ _
+      · split <;> exact ih _ _
+      · split
+        · exact ih _ _
+        · split <;> exact ih _ _
+      · split <;> exact ih _ _
+
+/-- the dispatch count only grows; if it did not grow and the io_uring completion queue was not served
+    (the flag stays clear) no callback ran: `loop->time` is untouched -/
+theorem dispatchLoop_count (sc : Script) (fuel : Nat) (s : State) (n : Nat) (sg : Bool) :
+    n ≤ (dispatchLoop sc fuel s n sg).2.1 ∧
+    ((dispatchLoop sc fuel s n sg).2.1 = n → (dispatchLoop sc fuel s n sg).2.2 = false →
+      (dispatchLoop sc fuel s n sg).1.tm = s.tm) := by
+  induction fuel generalizing s n sg with
+  | zero => exact ⟨Nat.le_refl _, fun _ _ => rfl⟩
+  | succ m ih =>
+    unfold dispatchLoop
+    split
+    · exact ⟨Nat.le_refl _, fun _ _ => rfl⟩
     · have same : ∀ (s' : State) sg', s'.tm = s.tm → n ≤ (dispatchLoop sc m s' n sg').2.1 ∧
-          ((dispatchLoop sc m s' n sg').2.1 = n → (dispatchLoop sc m s' n sg').1.tm = s.tm) := by
+          ((dispatchLoop sc m s' n sg').2.1 = n → (dispatchLoop sc m s' n sg').2.2 = false →
+            (dispatchLoop sc m s' n sg').1.tm = s.tm) := by
         intro s' sg' h; rw [← h]; exact ih s' n sg'
       have more : ∀ (s' : State) sg', n ≤ (dispatchLoop sc m s' (n + 1) sg').2.1 ∧
-          ((dispatchLoop sc m s' (n + 1) sg').2.1 = n → (dispatchLoop sc m s' (n + 1) sg').1.tm = s.tm) := by
+          ((dispatchLoop sc m s' (n + 1) sg').2.1 = n → (dispatchLoop sc m s' (n + 1) sg').2.2 = false →
+            (dispatchLoop sc m s' (n + 1) sg').1.tm = s.tm) := by
         intro s' sg'
         have := (ih s' (n + 1) sg').1
         exact ⟨by omega, fun h => by omega⟩
@@ -147,6 +171,11 @@ theorem dispatchLoop_count (sc : Script) (fuel : Nat) (s : State) (n : Nat) (sg 
         · split
           · exact same _ _ rfl
           · exact more _ _
+      · split
+        · refine ⟨(ih _ n true).1, fun _ h => ?_⟩
+          rw [dispatchLoop_sg_true] at h
+          cases h
+        · exact same _ _ rfl
 
 theorem pollLoop_ext (G : Prop) (t : Int) (sc : Script) (s0 : State) (fuel : Nat) (s : State) (c : PollCtl)
     (hi : TrExt (PollEv G t) s0 s) (hh : G → PollHyp t s c) :
@@ -210,12 +239,12 @@ theorem pollLoop_ext (G : Prop) (t : Int) (sc : Script) (s0 : State) (fuel : Nat
         have o6 : ({ d.1 with batch := [] } : State).oracle = rest := by
           obtain ⟨_, _, _, ho⟩ := hx
           exact ho.trans o5
-        have t6 : (d.2.1 != 0) = false → d.1.tm.time = r.clock % Timer.U64 := by
-          intro hn
+        have t6 : d.2.2 = false → (d.2.1 != 0) = false → d.1.tm.time = r.clock % Timer.U64 := by
+          intro hsg hn
           have := (dispatchLoop_count sc (r.batch.length + 1) { s5 with batch := r.batch } 0 false).2
           rw [hd] at this
           have h0 : d.2.1 = 0 := by simpa using hn
-          rw [this h0]; exact t5
+          rw [this h0 hsg]; exact t5
         generalize ({ d.1 with batch := [] } : State) = s6 at h6 o6 ⊢
         have hc1 : (if c.reset = true then { c with timeout := c.userTimeout, reset := false } else c).base = c.base ∧
             (if c.reset = true then { c with timeout := c.userTimeout, reset := false } else c).realTimeout = c.realTimeout ∧
@@ -230,7 +259,8 @@ theorem pollLoop_ext (G : Prop) (t : Int) (sc : Script) (s0 : State) (fuel : Nat
         obtain ⟨b1, r1, rs1, bd1⟩ := hc1
         split
         · exact h6
-        · split
+        · rename_i hsg
+          split
           · split
             · exact ih _ _ h6 (fun g => (hh g).zero _ heq o6 b1 r1 rs1)
             · exact h6
@@ -238,7 +268,7 @@ theorem pollLoop_ext (G : Prop) (t : Int) (sc : Script) (s0 : State) (fuel : Nat
             split
             · exact h6
             · rename_i c' hu
-              exact ih _ _ h6 (fun g => (hh g).step (c1 := c1) heq o6 (t6 (by simpa using hn)) b1 r1 rs1 (bd1 g) hu)
+              exact ih _ _ h6 (fun g => (hh g).step (c1 := c1) heq o6 (t6 (by simpa using hsg) (by simpa using hn)) b1 r1 rs1 (bd1 g) hu)
 
 theorem ioPoll_ext (G : Prop) (t : Int) (sc : Script) (s0 s : State) (hi : TrExt (PollEv G t) s0 s)
     (hh : G → ∀ r ∈ s.oracle, s.tm.time ≤ r.clock ∧ r.clock < Timer.U64) :
